@@ -26,7 +26,9 @@ RULE = ('texts built from part lists: literal runs (with $, $$, {, }, quotes, en
 TRUSTED = []
 ASSUMPTIONS = []
 
-LITS = ['a', ' b ', '$$', 'x $ y', '{', '}', '{}', '$', "it's", '"q"', '&amp;', '&lt;', 'é', '$$$$', 'k: v', '} {', '$x', '$ {x}', '(', ']']
+LITS = ['a', ' b ', '$$', 'x $ y', '{', '}', '{}', '$', "it's", '"q"', '&amp;', '&lt;', 'é', '$$$$', 'k: v', '} {', '$x', '$ {x}', '(', ']',
+        # a run of `$` that is *not* adjacent to what follows: white space (a line break in particular) in between
+        '$\n', 'x$\n', '$$$\n', '$$\n', '\n', '$ ', '$\t', '$\n\n', '$\n ']
 EXPRS = [
     ("x", 'X'), ("'}'", '}'), ("'${'", '${'), ("{'a': 1}['a']", '1'), ("'{' + x + '}'", '{X}'), ("len({1, 2})", '2'), ("f'{x}!'", 'X!'),
     ("'%s}' % x", 'X}'), ("x if x else '}'", 'X'), ("dict(a='}')['a']", '}'), ("'a &amp; b'", 'a & b'), ("1 &lt; 2", 'True'),
